@@ -944,7 +944,9 @@ impl DefaultFunction {
                     })
                     .collect();
 
-                let i: u64 = i.try_into().unwrap();
+                let Ok(i) = u64::try_from(i) else {
+                    return Err(Error::OutsideNaturalBounds(i.clone()));
+                };
 
                 let constr_data = Data::constr(i, data_list);
 
